@@ -241,8 +241,8 @@ func c15Run(c *Ctx) {
 					if ri > 1 && (sc.Layer != "L0" || pi != 3) {
 						continue
 					}
-					for _, base := range []Flags{{}, {N: true, B: true, R: "x"}, {R: "${1}US$ %s"}} {
-						if (base.N || base.R != "") && (sc.Layer != "L0" || ri > 0) {
+					for _, base := range []Flags{{}, {N: true, B: true, R: "x"}, {R: "${1}US$ %s"}, {W: true, I: true}, {Y: true}} {
+						if (base.N || base.R != "" || base.W || base.Y) && (sc.Layer != "L0" || ri > 0) {
 							continue
 						}
 						fl := base
